@@ -34,6 +34,7 @@ impl Prop for C06Prop {
             lifecycle_pct: 30,
             keyings: 1,
             boundary_per_mille: 0,
+            huge_one_in: 2000,
         }
         .gen("C06", seed, idx)
     }
@@ -96,6 +97,6 @@ impl Prop for C06Prop {
         cx.states.push(super::lifecycle::ops_hash(&case.ops));
     }
     fn rule(&self) -> String {
-        "graphs of all 8 kinds (shapes incl. in/out stars, and lifecycle-built; n <= 10 or 21-50), hop counts or positive weights (dyadic, integer, decimal); closeness_centrality(weighted x wf_improved) under a simulated pool of 1-16 workers vs the definition from the incoming Floyd-Warshall distance columns at 1e-9, exactly one entry per node. distinct_nontrivial = distinct graphs with >= 2 edges".into()
+        "graphs of all 8 kinds (shapes incl. in/out stars, and lifecycle-built; n <= 10 or 21-50), hop counts or positive weights (dyadic, integer, decimal); closeness_centrality(weighted x wf_improved) under a simulated pool of 1-16 workers vs the definition from the incoming Floyd-Warshall distance columns at 1e-9, exactly one entry per node. distinct_nontrivial = distinct graphs with >= 2 edges; one case in 2000 is a dense graph (1-3 blocks, 60-300 nodes) with 2 100 - 12 500 stored edges under a pool of 2-16 workers (strategy thresholds)".into()
     }
 }
